@@ -8,25 +8,13 @@ import (
 	"encoding/hex"
 	"encoding/json"
 	"unicode/utf8"
+
+	"a0verif/plan/core"
 )
 
-// DevStep scripts one Read call of the simulated entropy device: deliver
-// min(D, len(p)) bytes, then return the error named by E ("" = nil).
-// D == 0 with E == "" is a stall (0, nil).
-type DevStep struct {
-	D int    `json:"d"`
-	E string `json:"e,omitempty"` // "", eof, ueof, err, weof, closed
-}
-
-// Dev is a device: a byte stream (explicit hex prefix, then a deterministic
-// fill) and a script. After the script is exhausted the device serves the
-// stream without faults, filling each buffer completely.
-type Dev struct {
-	Hex    string    `json:"hex,omitempty"`
-	Fill   string    `json:"fill,omitempty"` // prng (default), zero, ff, counter
-	Seed   uint64    `json:"seed,omitempty"`
-	Script []DevStep `json:"script,omitempty"`
-}
+type DevStep = core.DevStep
+type Dev = core.Dev
+type ReadRec = core.ReadRec
 
 // Op is one call of the exported API.
 type Op struct {
@@ -94,14 +82,6 @@ func (a Outcome) Equal(b Outcome) bool {
 		}
 	}
 	return true
-}
-
-// ReadRec is one Read call as seen by the device.
-type ReadRec struct {
-	Asked int    `json:"a"`
-	Gave  int    `json:"g"`
-	Err   string `json:"e,omitempty"`
-	Task  int    `json:"t,omitempty"`
 }
 
 func Digest(v interface{}) string {
